@@ -534,10 +534,16 @@ def run_property(pid, mod, tier, seed, replay=None):
         n_viol += 1
         exit_code = 1
 
-    for r in viol[:40]:
+    # one representative per (pre-shrink) class, at most 4 classes, each shrunk under a time budget
+    seen_classes = []
+    for r in viol:
+        k = json.dumps(mod.violation_class(r[0], r[3]) if hasattr(mod, "violation_class") else "v", sort_keys=True)
+        if k in seen_classes:
+            continue
+        seen_classes.append(k)
         report_violation(r[0], r[3])
-    if exit_code == 0 and not [l for l in lines if l.startswith("KNOWN")] or True:
-        pass
+        if len(seen_classes) >= 4:
+            break
     if not viol:
         if disagree:
             case2, detail2 = shrink(mod, b.binary, disagree[0][0], disagree[0][3], want="disagree")
@@ -623,18 +629,19 @@ def match_known(known, pid, mod, case, detail):
     return None
 
 
-def shrink(mod, binary, case, detail, want, budget=150):
-    """greedy shrinking with the property module's candidate generator"""
+def shrink(mod, binary, case, detail, want, budget=150, seconds=90):
+    """greedy shrinking with the property module's candidate generator, under a time budget"""
     if not hasattr(mod, "shrink_candidates"):
         return case, detail
     ctx = Ctx(binary)
+    t_end = time.time() + seconds
     try:
         improved = True
-        while improved and budget > 0:
+        while improved and budget > 0 and time.time() < t_end:
             improved = False
             for cand in mod.shrink_candidates(case):
                 budget -= 1
-                if budget <= 0:
+                if budget <= 0 or time.time() > t_end:
                     break
                 try:
                     r = mod.run_case(cand, ctx)
